@@ -4,7 +4,9 @@
 // definitions {absent, text, empty, parent() once, parent() twice, parent() inside if/for} to every
 // level and block × base layouts (flat, in for, in if, nested, after set, block standing inside an
 // override) × ways of writing the parent name × text outside blocks × contexts × template size
-// (below / above the 4096-byte tokenizer switch). Every program is printed from a small AST of the
+// (below / above the 4096-byte tokenizer switch) × position of the {% extends %} tag among the
+// top-level items of every extending template (first / behind the first block definition / last).
+// Every program is printed from a small AST of the
 // check's own, rendered by the real engine (fresh engine per case, exported API only) and compared
 // with an evaluator of the same AST that is transcribed from the property statement.
 package main
@@ -83,8 +85,9 @@ func printItems(b *strings.Builder, its []item) {
 
 // a template of the chain: optional extends (printed by the case), then items
 type tpl struct {
-	pre   []item // text before the extends tag (children only)
-	items []item // everything after the extends tag
+	pre   []item // text that always stands before the extends tag (children only)
+	items []item // the other top-level items
+	extAt int    // the extends tag is written in front of items[extAt] (len(items): at the very end)
 }
 
 // ---------------------------------------------------------------------------------------------
@@ -108,6 +111,7 @@ type model struct {
 	emptySel    bool // an empty definition was rendered (as the winner or through parent())
 	defViaPar   bool // the body where the block stands was reached through parent()
 	skipped     bool // a rendered chain skips a level that does not define the block
+	defBeforeExt bool // some block definition stands in front of the extends tag of its template
 	blocksRun   int
 	parentCalls int
 	bad         string
@@ -241,6 +245,16 @@ var nameFormName = [...]string{"sq", "dq", "var", "tern", "tern2", "varcat", "pa
 
 var ctxNames = []string{"c0", "c1", "c2"}
 
+// position of the {% extends %} tag among the top-level items of an extending template
+const (
+	xFirst = iota // in front of every block definition (the usual way of writing it)
+	xMid          // right behind the first block definition of the template (between two definitions when it has several)
+	xLast         // behind everything else
+	nExtPos
+)
+
+var extPosName = [...]string{"f", "m", "l"}
+
 func ctxOf(i int) map[string]interface{} {
 	c := map[string]interface{}{
 		"n0": "t0", "n1": "t1", "n2": "t2", "n3": "t3", "n4": "t4", "n5": "t5",
@@ -274,6 +288,7 @@ type kase struct {
 	Junk     int // 0 none, 1 text outside blocks, 2 text + prints + control structures outside blocks
 	Ctx      int
 	Pad      int // 0 none, 1 every template above 4096 bytes (comment), 2 only the rendered one
+	Ext      [maxLevels]int // Ext[level]: where the extends tag of template t{level} stands (xFirst/xMid/xLast), level 1…L-1
 }
 
 func (c *kase) key() string {
@@ -292,6 +307,13 @@ func (c *kase) key() string {
 		}
 	}
 	fmt.Fprintf(&b, "|%s|j%d|%s|p%d", nameFormName[c.NameForm], c.Junk, ctxNames[c.Ctx], c.Pad)
+	if c.extMoved() {
+		// (cases with every extends tag in front keep the key they had before this dimension existed)
+		b.WriteString("|x")
+		for l := 1; l < c.L; l++ {
+			b.WriteString(extPosName[c.Ext[l]])
+		}
+	}
 	return b.String()
 }
 
@@ -358,6 +380,15 @@ func (c *kase) valid() bool {
 	return true
 }
 
+func (c *kase) extMoved() bool {
+	for l := 1; l < c.L; l++ {
+		if c.Ext[l] != xFirst {
+			return true
+		}
+	}
+	return false
+}
+
 func (c *kase) hosted() bool { return c.Layout == lHosted || c.Layout == lHostedPre }
 
 func (c *kase) templates() []tpl {
@@ -395,6 +426,21 @@ func (c *kase) templates() []tpl {
 		}
 		if c.Junk >= 1 {
 			t.items = append(t.items, text(fmt.Sprintf(" post%d", l)))
+		}
+		switch c.Ext[l] {
+		case xFirst:
+			t.extAt = 0
+		case xLast:
+			t.extAt = len(t.items)
+		case xMid:
+			// right behind the first block definition; a template without definitions: in the middle of its items
+			t.extAt = len(t.items) / 2
+			for i, it := range t.items {
+				if it.kind == kBlock {
+					t.extAt = i + 1
+					break
+				}
+			}
 		}
 		ts[l] = t
 	}
@@ -435,9 +481,12 @@ func (c *kase) sources(ts []tpl) map[string]string {
 		}
 		if l > 0 {
 			printItems(&b, ts[l].pre)
+			printItems(&b, ts[l].items[:ts[l].extAt])
 			b.WriteString("{% extends " + parentExpr(c.NameForm, l-1) + " %}")
+			printItems(&b, ts[l].items[ts[l].extAt:])
+		} else {
+			printItems(&b, ts[l].items)
 		}
-		printItems(&b, ts[l].items)
 		src[fmt.Sprintf("t%d", l)] = b.String()
 	}
 	return src
@@ -446,9 +495,13 @@ func (c *kase) sources(ts []tpl) map[string]string {
 func (c *kase) expected(ts []tpl) *model {
 	m := &model{over: map[string][][]item{}}
 	for l := c.L - 1; l >= 1; l-- {
-		for _, it := range ts[l].items {
+		// a block definition of a template counts wherever it stands relative to the extends tag
+		for i, it := range ts[l].items {
 			if it.kind == kBlock {
 				m.over[it.s] = append(m.over[it.s], it.body)
+				if i < ts[l].extAt {
+					m.defBeforeExt = true
+				}
 			}
 		}
 	}
@@ -516,10 +569,34 @@ func check(c kase) *vlib.Outcome {
 	if c.Pad > 0 {
 		cls += "/pad"
 	}
+	if c.extMoved() {
+		// which positions other than "first" occur, and whether a definition really stands in front of a tag
+		var mid, last bool
+		for l := 1; l < c.L; l++ {
+			mid = mid || c.Ext[l] == xMid
+			last = last || c.Ext[l] == xLast
+		}
+		cls += "/x"
+		if mid {
+			cls += "m"
+		}
+		if last {
+			cls += "l"
+		}
+		if m.defBeforeExt {
+			cls += "B"
+		}
+	}
 	o := &vlib.Outcome{
 		Nontrivial: c.L >= 2 && m.substituted,
 		Class:      cls,
 		Counters:   map[string]int64{"renders": 1, "blocks_rendered_in_model": int64(m.blocksRun), "parent_calls_in_model": int64(m.parentCalls)},
+	}
+	if c.extMoved() {
+		o.Counters["extends_tag_not_first"] = 1
+		if m.defBeforeExt {
+			o.Counters["block_definition_before_extends_tag"] = 1
+		}
 	}
 	if errText == "" && got == want {
 		return o
@@ -560,6 +637,7 @@ type family struct {
 	junks     []int
 	ctxs      []int
 	pads      []int
+	extPos    []int // positions of the extends tag, enumerated independently for every level (nil: always first)
 }
 
 func ints(n int) []int {
@@ -576,6 +654,8 @@ func families(thorough bool) []family {
 	lite4 := []int{cAbsent, cText, cEmpty, cPar1}
 	layouts := ints(nLayouts)
 	sq := []int{nfSingle}
+	xpos := ints(nExtPos)
+	noCat := []int{nfSingle, nfDouble, nfVar, nfTernary, nfTernary2, nfVarConcat, nfParenConcat} // 't' ~ '0' is KF-C10-1
 	if !thorough {
 		return []family{
 			// chain logic, block a alone, chains of up to 5 templates
@@ -591,6 +671,12 @@ func families(thorough bool) []family {
 			{name: "C", maxL: 4, blocks: []int{0}, choices: all5, fixed: [3]int{0, cPar1, cText}, layouts: layouts, nameForms: ints(nNameForms), junks: []int{0, 1, 2}, ctxs: []int{0, 1, 2}, pads: []int{0, 1}},
 			// padded templates (other tokenizer), a × in
 			{name: "D", maxL: 3, blocks: []int{0, 2}, choices: all5, fixed: [3]int{0, cPar2, 0}, layouts: layouts, nameForms: []int{nfSingle, nfVar, nfTernary}, junks: []int{2}, ctxs: []int{0}, pads: []int{1}},
+			// position of the extends tag (first / behind the first block definition / last), independently at every level:
+			// block a over all 6 choices × 7 name forms × text outside blocks × padding (b = P, in = T fixed) …
+			{name: "E1", maxL: 3, blocks: []int{0}, choices: all6, fixed: [3]int{0, cPar1, cText}, layouts: layouts, nameForms: noCat, junks: []int{0, 1, 2}, ctxs: []int{0}, pads: []int{0, 1}, extPos: xpos},
+			// … and a × b, a × in with a static and a dynamic parent name
+			{name: "E2b", maxL: 3, blocks: []int{0, 1}, choices: all5, layouts: layouts, nameForms: []int{nfSingle, nfVar}, junks: []int{0}, ctxs: []int{0}, pads: []int{0}, extPos: xpos},
+			{name: "E2i", maxL: 3, blocks: []int{0, 2}, choices: all5, layouts: layouts, nameForms: []int{nfSingle, nfVar}, junks: []int{0}, ctxs: []int{0}, pads: []int{0}, extPos: xpos},
 		}
 	}
 	return []family{
@@ -603,6 +689,12 @@ func families(thorough bool) []family {
 		{name: "A2b5", maxL: 5, blocks: []int{0, 1}, choices: lite4, layouts: layouts, nameForms: sq, junks: []int{0}, ctxs: []int{0}, pads: []int{0}},
 		{name: "A2i5", maxL: 5, blocks: []int{0, 2}, choices: lite4, layouts: layouts, nameForms: sq, junks: []int{0}, ctxs: []int{0}, pads: []int{0}},
 		{name: "B4", maxL: 4, blocks: []int{0, 1, 2}, choices: lite4, layouts: layouts, nameForms: []int{nfVar}, junks: []int{0}, ctxs: []int{0}, pads: []int{0}},
+		// position of the extends tag, independently at every level (see the quick tier)
+		{name: "E1", maxL: 4, blocks: []int{0}, choices: all6, fixed: [3]int{0, cPar1, cText}, layouts: layouts, nameForms: noCat, junks: []int{0, 2}, ctxs: []int{0}, pads: []int{0, 1}, extPos: xpos},
+		{name: "E2b", maxL: 3, blocks: []int{0, 1}, choices: all6, layouts: layouts, nameForms: []int{nfSingle, nfVar}, junks: []int{0}, ctxs: []int{0, 1, 2}, pads: []int{0}, extPos: xpos},
+		{name: "E2i", maxL: 3, blocks: []int{0, 2}, choices: all6, layouts: layouts, nameForms: []int{nfSingle, nfVar}, junks: []int{0}, ctxs: []int{0, 1, 2}, pads: []int{0}, extPos: xpos},
+		{name: "E2b4", maxL: 4, blocks: []int{0, 1}, choices: lite4, layouts: layouts, nameForms: []int{nfSingle}, junks: []int{0}, ctxs: []int{0}, pads: []int{0}, extPos: xpos},
+		{name: "E2i4", maxL: 4, blocks: []int{0, 2}, choices: lite4, layouts: layouts, nameForms: []int{nfVar}, junks: []int{0}, ctxs: []int{0}, pads: []int{0}, extPos: xpos},
 	}
 }
 
@@ -636,6 +728,14 @@ func (f *family) each(emit func(kase)) {
 				if !c.valid() {
 					continue
 				}
+				extPos := f.extPos
+				if len(extPos) == 0 {
+					extPos = []int{xFirst}
+				}
+				nx := 1
+				for l := 1; l < L; l++ {
+					nx *= len(extPos)
+				}
 				for _, nf := range f.nameForms {
 					if L == 1 && nf != f.nameForms[0] {
 						continue // no extends tag: the name form does not occur
@@ -649,8 +749,15 @@ func (f *family) each(emit func(kase)) {
 								if L == 1 && p == 2 {
 									continue
 								}
-								c.NameForm, c.Junk, c.Ctx, c.Pad = nf, j, cx, p
-								emit(c)
+								for xc := 0; xc < nx; xc++ {
+									y := xc
+									for l := 1; l < L; l++ {
+										c.Ext[l] = extPos[y%len(extPos)]
+										y /= len(extPos)
+									}
+									c.NameForm, c.Junk, c.Ctx, c.Pad = nf, j, cx, p
+									emit(c)
+								}
 							}
 						}
 					}
@@ -694,7 +801,7 @@ func main() {
 	vlib.Main(vlib.Spec{
 		ID:    "C10",
 		Level: "exploration",
-		Rule: "every extends chain of 1–4 templates × every assignment of {absent, text, empty, parent(), parent() twice, parent() in if/for} to (level, block) × 6 base layouts × 8 ways of writing the parent name × text outside blocks × 3 contexts × padding across the 4096-byte tokenizer switch, as a union of full products (families, see NOTES.md); rendered on a fresh engine and compared with an evaluator of the same AST transcribed from the statement. Non-trivial: the chain has at least two templates and at least one block that is rendered has an overriding definition",
+		Rule: "every extends chain of 1–4 templates × every assignment of {absent, text, empty, parent(), parent() twice, parent() in if/for} to (level, block) × 7 base layouts × 8 ways of writing the parent name × text outside blocks × 3 contexts × padding across the 4096-byte tokenizer switch × position of the extends tag in every extending template (in front of / between / behind its block definitions), as a union of full products (families, see NOTES.md); rendered on a fresh engine and compared with an evaluator of the same AST transcribed from the statement. Non-trivial: the chain has at least two templates and at least one block that is rendered has an overriding definition",
 		Assumptions: []string{
 			"child templates define blocks at top level only and a block name stands in exactly one place of the chain (the statement does not say which definition a re-nested block contributes)",
 			"parent() is only printed ({{ parent() }}), bodies do not assign variables, text outside blocks contains no set",
@@ -712,8 +819,8 @@ func main() {
 				for _, c := range f.choices {
 					chs = append(chs, choiceName[c])
 				}
-				fs = append(fs, fmt.Sprintf("%s: chains<=%d templates, blocks %s over {%s}, %d layouts, %d name forms, %d junk variants, %d contexts, %d padding variants",
-					f.name, f.maxL, strings.Join(bl, "+"), strings.Join(chs, ","), len(f.layouts), len(f.nameForms), len(f.junks), len(f.ctxs), len(f.pads)))
+				fs = append(fs, fmt.Sprintf("%s: chains<=%d templates, blocks %s over {%s}, %d layouts, %d name forms, %d junk variants, %d contexts, %d padding variants, %d positions of the extends tag per level",
+					f.name, f.maxL, strings.Join(bl, "+"), strings.Join(chs, ","), len(f.layouts), len(f.nameForms), len(f.junks), len(f.ctxs), len(f.pads), max(1, len(f.extPos))))
 			}
 			cov["families"] = fs
 		},
